@@ -82,8 +82,19 @@ fn gen(rng: &mut Rng, _i: usize) -> Case {
         1 => rng.range(3, 40),
         _ => rng.range(40, 1500),
     };
-    let bm = *rng.pick(BMS);
+    let mut bm = *rng.pick(BMS);
+    // slow producers: a stage `p <k>` in the source block pauses 12 ms (6 x max_delay of the `adaptive`
+    // mode used here) after every k-th element, so that elements arrive at a batcher that still holds
+    // earlier ones long after its last flush; the order must not depend on such pauses
+    let slow = rng.chance(1, 5);
+    let n = if slow { n.min(rng.range(5, 50)) } else { n };
+    if slow {
+        bm = "adaptive";
+    }
     let mut c = Case::new(&["seqpath", &n.to_string(), bm]);
+    if slow {
+        c.ops(vec!["st".into(), "p".into(), rng.range(2, 6).to_string()]);
+    }
     let len = rng.range(1, 7);
     for _ in 0..len {
         match rng.below(6) {
@@ -114,6 +125,15 @@ fn exec(c: &Case) -> Vec<String> {
                 "m" => boxed(s.map(move |x| x * 3 + p)),
                 "f" => boxed(s.filter(move |x| x % p != 0)),
                 "d" => boxed(s.flat_map(|x| vec![x, x + 1_000_000])),
+                "p" => {
+                    // `p` is generated as the first stage, so x is the element's index
+                    boxed(s.map(move |x| {
+                        if p > 0 && (x + 1) % p == 0 {
+                            std::thread::sleep(Duration::from_millis(12));
+                        }
+                        x
+                    }))
+                }
                 _ => boxed(s.shuffle()),
             };
         }
